@@ -40,18 +40,18 @@ struct MidiWorld : World {
     std::string describe(const Op &op) const override {
         char b[96];
         switch (op.kind) { case U_MAP: snprintf(b, sizeof b, "user:map(%s,%s)", ADDR[((op.a[0] % NADDR) + NADDR) % NADDR], op.a[1] & 1 ? "fine" : "coarse"); break; case U_UNMAP: snprintf(b, sizeof b, "user:unMap(%s,%s)", ADDR[((op.a[0] % NADDR) + NADDR) % NADDR], op.a[1] & 1 ? "fine" : "coarse"); break;
-            case U_CLEAR: snprintf(b, sizeof b, "user:clear"); break; case M_CC: snprintf(b, sizeof b, "midi:cc(%s%lld,%lld)", op.a[3] % 3 == 1 ? "ch2:" : op.a[3] % 3 == 2 ? "nrpn:" : "", (long long)op.a[0], (long long)op.a[1]); break; case M_PAIR: snprintf(b, sizeof b, "midi:pair(%lld,%lld<=%lld)", (long long)op.a[0], (long long)op.a[1], (long long)op.a[2]); break;
+            case U_CLEAR: snprintf(b, sizeof b, "user:clear"); break; case M_CC: snprintf(b, sizeof b, "midi:cc(%s%lld,%lld)", op.a[3] % 5 == 1 ? "ch2:" : op.a[3] % 5 >= 2 ? (op.a[3] % 5 == 2 ? "nrpn:" : op.a[3] % 5 == 3 ? "nrpn+128:" : "nrpn+256:") : "", (long long)op.a[0], (long long)op.a[1]); break; case M_PAIR: snprintf(b, sizeof b, "midi:pair(%lld,%lld<=%lld)", (long long)op.a[0], (long long)op.a[1], (long long)op.a[2]); break;
             case D_A: snprintf(b, sizeof b, "deliver(nRT->RT)"); break; default: snprintf(b, sizeof b, "deliver(RT->nRT)"); }
         return b;
     }
     std::vector<Op> simpler(const Op &op) const override { std::vector<Op> v; if (op.kind == M_PAIR) { Op o = op; o.kind = M_CC; v.push_back(o); } if (op.kind == M_CC && op.a[1] != 64) { Op o = op; o.a[1] = 64; v.push_back(o); } if (op.kind == U_MAP && (op.a[1] & 1)) { Op o = op; o.a[1] = 0; v.push_back(o); } return v; }
     void gen(const std::string &, Rng &kr, Rng &pr, Knobs &k, Plan &p) override {
         k.assign(4, 0); k[0] = 2 + kr.below(3); k[1] = 2 + kr.below(5); k[2] = kr.chance(0.12); k[3] = kr.below(NADDR);
-        int na = (int)k[0], nc = (int)k[1]; int n = 1 + (int)pr.below(40);
+        int na = (int)k[0], nc = (int)k[1]; int n = 1 + (int)pr.below(g_tier ? 100 : 40);
         double w_user = 0.15 + 0.2 * pr.unit(), w_midi = 0.25 + 0.3 * pr.unit(), w_del = 0.2 + 0.4 * pr.unit(); double tot = w_user + w_midi + w_del;
         for (int i = 0; i < n; i++) { Op o; double u = pr.unit() * tot;
             if ((u -= w_user) < 0) { double s = pr.unit(); o.kind = s < 0.65 ? U_MAP : s < 0.9 ? U_UNMAP : U_CLEAR; o.a[0] = pr.below(na); o.a[1] = pr.chance(0.25); }
-            else if ((u -= w_midi) < 0) { o.kind = pr.chance(0.25) ? M_PAIR : M_CC; o.a[0] = 2 + pr.below(nc); o.a[3] = pr.chance(0.75) ? 0 : 1 + pr.below(2);   /* a[3]: 0 channel 1, 1 channel 2, 2 NRPN on channel 1 */ o.a[1] = pr.chance(0.2) ? pr.pick(std::vector<int64_t>{0, 127, 64}) : (int64_t)pr.below(128); if (o.kind == M_CC && pr.chance(0.3)) o.a[1] = -1; /* -1: send the value this controller sent last */ o.a[2] = pr.below(128); if (o.kind == M_PAIR && o.a[1] > o.a[2]) std::swap(o.a[1], o.a[2]); }
+            else if ((u -= w_midi) < 0) { o.kind = pr.chance(0.25) ? M_PAIR : M_CC; o.a[0] = 2 + pr.below(nc); o.a[3] = pr.chance(0.7) ? 0 : 1 + pr.below(4);   /* a[3]: 0 channel 1, 1 channel 2, 2..4 NRPN number, +128, +256 on channel 1 */ o.a[1] = pr.chance(0.2) ? pr.pick(std::vector<int64_t>{0, 127, 64}) : (int64_t)pr.below(128); if (o.kind == M_CC && pr.chance(0.3)) o.a[1] = -1; /* -1: send the value this controller sent last */ o.a[2] = pr.below(128); if (o.kind == M_PAIR && o.a[1] > o.a[2]) std::swap(o.a[1], o.a[2]); }
             else o.kind = pr.chance(0.5) ? D_A : D_B;
             p.push_back(o); }
     }
@@ -87,7 +87,7 @@ struct MidiWorld : World {
         // one MIDI event at the realtime half
         auto midi_cc = [&](int ctrl, int v, double *out, std::string *to) -> bool {
             // ctrl = controller number + 200 for channel 2 + 1000 for an NRPN controller: three different controllers in the sense of the statement
-            backend.clear(); used_ids.insert(ctrl); last_val[ctrl] = v; int par = ctrl % 200, chan = (ctrl % 1000) >= 200 ? 2 : 1; bool nrpn = ctrl >= 1000;
+            backend.clear(); used_ids.insert(ctrl); last_val[ctrl] = v; bool nrpn = ctrl >= 1000; int par = nrpn ? ctrl - 1000 : ctrl % 200, chan = (!nrpn && ctrl >= 200) ? 2 : 1;
             int id = id_of_ctrl.count(ctrl) ? id_of_ctrl[ctrl] : -1;
             std::string addr; bool coarse = true; int owners = id >= 0 ? id_owner(gen, id, addr, coarse) : 0;
             // mirror of the watch/pending handshake (for trigger detection only)
@@ -153,8 +153,8 @@ struct MidiWorld : World {
             opi++; stat_add(ST_OPS); shape = mix64(shape, op.kind * 1009 + (uint64_t)op.a[0] * 17 + (uint64_t)op.a[1]);
             switch (op.kind) {
             case U_MAP: case U_UNMAP: case U_CLEAR: user_op(op.kind, ADDR[(a0 + (((op.a[0] % na) + na) % na)) % NADDR], !(op.a[1] & 1)); break;
-            case M_CC: { if (!chA.empty() || !chB.empty()) stat_add(F_OVERTAKE); int id = (int)(((op.a[0] % 120) + 120) % 120) + (op.a[3] % 3 == 1 ? 200 : op.a[3] % 3 == 2 ? 1000 : 0); int v = op.a[1] < 0 ? (last_val.count(id) ? last_val[id] : 64) : (int)(op.a[1] % 128); midi_cc(id, v, nullptr, nullptr); break; }
-            case M_PAIR: { int id = (int)(((op.a[0] % 120) + 120) % 120) + (op.a[3] % 3 == 1 ? 200 : op.a[3] % 3 == 2 ? 1000 : 0), v1 = (int)(((op.a[1] % 128) + 128) % 128), v2 = (int)(((op.a[2] % 128) + 128) % 128); if (v1 > v2) std::swap(v1, v2);
+            case M_CC: { if (!chA.empty() || !chB.empty()) stat_add(F_OVERTAKE); int id = (int)(((op.a[0] % 120) + 120) % 120) + (op.a[3] % 5 == 1 ? 200 : op.a[3] % 5 >= 2 ? 1000 + 128 * (int)(op.a[3] % 5 - 2) : 0); int v = op.a[1] < 0 ? (last_val.count(id) ? last_val[id] : 64) : (int)(op.a[1] % 128); midi_cc(id, v, nullptr, nullptr); break; }
+            case M_PAIR: { int id = (int)(((op.a[0] % 120) + 120) % 120) + (op.a[3] % 5 == 1 ? 200 : op.a[3] % 5 >= 2 ? 1000 + 128 * (int)(op.a[3] % 5 - 2) : 0), v1 = (int)(((op.a[1] % 128) + 128) % 128), v2 = (int)(((op.a[2] % 128) + 128) % 128); if (v1 > v2) std::swap(v1, v2);
                 double o1 = 0, o2 = 0; std::string a1, a2; if (midi_cc(id, v1, &o1, &a1) && midi_cc(id, v2, &o2, &a2) && !a1.empty() && a1 == a2 && model_trusted) { stat_add(P_PAIR); if (o2 < o1) { snprintf(b, sizeof b, "op %d: controller %d: value fell from %.9g to %.9g when the controller value rose from %d to %d (%s)", opi, id, o1, o2, v1, v2, a1.c_str()); fail("MONOTONIC", b); } }
                 break; }
             case D_A: if (chA.size() > 0) { if (chA.size() > 1 || !chB.empty()) stat_add(F_DELAY_A); deliver_A(); } break;
@@ -183,7 +183,7 @@ struct MidiWorld : World {
             if (res.cls.empty() && model_trusted) for (auto &kv : mb) { if (kv.second.coarse < 0 || kv.second.fine < 0 || !ctrl_of_id.count(kv.second.coarse) || !ctrl_of_id.count(kv.second.fine)) continue; int c = ctrl_of_id[kv.second.coarse], f = ctrl_of_id[kv.second.fine]; double o0, o1, o2, o3; std::string t; opi++;
                 if (!(midi_cc(c, 10, &o0, &t) && midi_cc(f, 0, &o0, &t) && midi_cc(f, 127, &o1, &t) && midi_cc(c, 11, &o2, &t) && midi_cc(f, 0, &o3, &t))) break; stat_add(P_FINE_WEIGHT);
                 if (!(o0 <= o1 && o1 <= o3 && o3 <= o2)) { snprintf(b, sizeof b, "quiescent: %s coarse %d fine %d: (coarse 10, fine 0) -> %.9g, (10,127) -> %.9g, (11,0) -> %.9g, (11,127) -> %.9g: not ordered as the 14-bit value", kv.first.c_str(), c, f, o0, o1, o3, o2); fail("FINE-WEIGHT", b); } }
-            if (res.cls.empty() && model_trusted) for (int ctrl : used_ids) { std::string a; bool c; int id = id_of_ctrl.count(ctrl) ? id_of_ctrl[ctrl] : -1; if (id < 0 || id_owner(mb, id, a, c) == 0) { opi++; backend.clear(); rt->handleCC(ctrl % 200, 5, (char)((ctrl % 1000) >= 200 ? 2 : 1), ctrl >= 1000); if (!backend.empty()) { snprintf(b, sizeof b, "quiescent: controller %d is assigned to nothing (unmapped or never assigned) but drove %s", id, backend[0].data()); fail("CROSS-DRIVE", b); break; } stat_add(P_UNMAP_STOPS); } }
+            if (res.cls.empty() && model_trusted) for (int ctrl : used_ids) { std::string a; bool c; int id = id_of_ctrl.count(ctrl) ? id_of_ctrl[ctrl] : -1; if (id < 0 || id_owner(mb, id, a, c) == 0) { opi++; backend.clear(); rt->handleCC(ctrl >= 1000 ? ctrl - 1000 : ctrl % 200, 5, (char)((ctrl < 1000 && ctrl >= 200) ? 2 : 1), ctrl >= 1000); if (!backend.empty()) { snprintf(b, sizeof b, "quiescent: controller %d is assigned to nothing (unmapped or never assigned) but drove %s", id, backend[0].data()); fail("CROSS-DRIVE", b); break; } stat_add(P_UNMAP_STOPS); } }
             // unmapping ANOTHER address leaves a coarse+fine pair's stored 14-bit value alone ("other addresses' bindings are unaffected")
             if (res.cls.empty() && model_trusted) { std::string pairaddr, other; bool other_coarse = true;
                 for (auto &kv : mb) if (kv.second.coarse >= 0 && kv.second.fine >= 0) pairaddr = kv.first;
